@@ -355,7 +355,10 @@ def update_worker(job):
     kw_upd = dict(mode=mode, use_numba=bool(job.get("numba")), only_update_hydraulic_matrix=True,
                   reuse_internal_data=True)
     kw_plain = dict(mode=mode, use_numba=bool(job.get("numba")))
-    ra = equiv.RunSpec(spec, kw_upd, pre_calls=[dict(kw_upd)], relabel_loads_between=True)
+    # job["ncalls"] consecutive calls on one net: the structure is stored by the first, reused by the second (whose solve
+    # works on a matrix built from the stored arrays) and read again by the third
+    ra = equiv.RunSpec(spec, kw_upd, pre_calls=[dict(kw_upd) for _ in range(int(job.get("ncalls", 2)) - 1)],
+                       relabel_loads_between=True)
     rb = equiv.RunSpec(spec, kw_plain)
     return equiv.equiv_worker(job, ra, rb, fp_prefix="C07/update", replay_kind="update")
 
@@ -421,6 +424,8 @@ def jobs(tier, seed):
         for numba in (False, True):
             out.append({"name": "update/%s/%s" % (s["name"], "numba" if numba else "numpy"), "kind": "update", "spec": s,
                         "numba": numba})
+    for s in [catalog.w_components(), catalog.g_components()]:
+        out.append({"name": "update3/%s/numpy" % s["name"], "kind": "update", "spec": s, "numba": False, "ncalls": 3})
     # the option in calculations with a thermal stage (the thermal matrix has another structure than the hydraulic one)
     for s, m in [(catalog.w_heat_line(), "sequential"), (catalog.w_circ_loop(), "sequential"), (catalog.w_circ_mass(), "bidirectional")]:
         out.append({"name": "update/%s/%s" % (s["name"], m), "kind": "update", "spec": s, "numba": False, "pfmode": m})
